@@ -346,6 +346,10 @@ static void exec_op(int i) {
     char bp[700]; uint64_t ts = 0;
     snprintf(bp, sizeof(bp), "%s/bkp", g_dir);
     g_fail_at = atoi(op + 1);
+    if (g_fail_at == 0) {  // F0: the target itself cannot be created (its directory does not exist)
+      snprintf(bp, sizeof(bp), "%s/no-such-directory/bkp", g_dir);
+      tr("G fail 0 0\n");
+    }
     g_inj_at = 1 << 30; g_inj_n = 0; g_inj_done = 0; g_bkp_writes = 0; g_threaded = 0;
     g_bkp_thread = pthread_self(); g_bkp_before_calls = 0;
     g_bkp_active = 1;
